@@ -69,6 +69,16 @@ def run_case(rec: Recorder, case: dict[str, typing.Any]) -> None:
                     client = urllib3.PoolManager(**lvl)
                 else:
                     client = urllib3.ProxyManager("http://proxy.test:3128", proxy_headers={"Proxy-Authorization": "Basic cHJveHk="}, **lvl)
+                if case.get("prior"):
+                    # an earlier request on the same manager with credentials of its own: nothing of it may show up in
+                    # the judged chain (state kept by the manager, its pools or a shared header object)
+                    prior_headers = make_headers({"container": case["prior"], "pairs": [["Authorization", "prior-request-secret"], ["X-Prior", "prior-marker"]]})
+                    try:
+                        client.urlopen("GET", start, headers=prior_headers, retries=Retry(total=8)).drain_conn()
+                    except HTTPError:
+                        pass
+                    server.log.clear()
+                    server.failed.clear()
                 if case["headers_at"] == "manager":
                     result = client.urlopen(case["method"], start, body=body, **kw)
                 else:
@@ -97,6 +107,13 @@ def run_case(rec: Recorder, case: dict[str, typing.Any]) -> None:
             rec.fail(case, "bare-pool-no-hostchangederror", obs, f"cross-host redirect on a bare pool ended with {exc!r} / status {getattr(result, 'status', None)}")
         return
     # PoolManager / ProxyManager: judge every request of the chain
+    if case.get("prior"):
+        rec.mon("prior_request_isolation")
+        for j, entry in enumerate(log):
+            for k, v in entry["headers"]:
+                if "prior-request-secret" in v or "prior-marker" in v:
+                    rec.fail(case, "header-of-an-earlier-request-sent", dict(obs, hop=j, header=k), f"request #{j} of the chain carries {k}: {v!r}, which belonged to an earlier request on the same manager")
+                    return
     supplied = [(k, v) for k, v in hspec["pairs"]]
     crossed = False
     for j, entry in enumerate(log):
@@ -171,6 +188,7 @@ def random_case(rng: typing.Any) -> dict[str, typing.Any]:
         "headers_at": rng.choice(["request", "request", "manager"]) if client != "pool" else "request",
         "strip": strip, "policy_at": rng.choice(["request", "manager", "manager"]) if strip is not None else rng.choice(["none", "request", "manager"]),
         "fail_first": 1 if (rng.random() < 0.15 and client != "pool") else 0,
+        "prior": rng.choice([None, None, None, "dict", "hd"]) if client != "pool" else None,
     }
 
 
